@@ -352,6 +352,7 @@ class Emitter:
         self.loop_ctx = None              # state tuple text of the innermost loop (for break / continue)
         self.mmode = False                # the function lives in the outcome monad M
         self.in_m = True                  # (in M mode) the code being translated itself yields a Result
+        self.self_aux = None              # name of the auxiliary function being translated (for self-calls)
         self.codec = False                # the JSON codec is a parameter (parse_, ser_)
         self.json_vars = set()            # variables known to hold a `Value`
         self.impl_type = None             # the type whose `impl` block the function is in
@@ -505,6 +506,8 @@ class Emitter:
                 if key[0] in self.file_fns and key[0] not in self.bound:
                     if key[0] not in self.needed: self.needed.append(key[0])
                     return "Gen.aux_" + key[0]
+                if self.self_aux and key[0] == self.self_aux and key[0] not in self.bound:
+                    return "Gen.aux_" + key[0]          # an auxiliary that calls itself (translated with a fuel argument)
                 return ident(key[0])
             if key in STD_CALLS and not (self.knot and key == ("Parsed", "from_value")): return STD_CALLS[key]
             if all(seg in CRATE_MODULES for seg in key[:-1]):          # a function of the crate named through its module
@@ -1199,6 +1202,7 @@ def translate_fn(f, lean_name, fn_names, extra_local=None, file_fns=None, aux_do
     em.local_ctors = local_ctors
     em.impl_type = f.get("impl")
     em.knot = knot
+    if attr and lean_name.startswith("aux_"): em.self_aux = f["name"]
     em.codec = qual in CODEC_FUNCS
     if em.codec:
         em.knot = True            # `crate::apply` is the translated apply
@@ -1221,7 +1225,7 @@ def translate_fn(f, lean_name, fn_names, extra_local=None, file_fns=None, aux_do
     uses_self = re.search(r"\bGen\.%s\b" % re.escape(lean_name), term) is not None
     text = "".join(pre)
     INFO[lean_name] = dict(binders=binders, names=[ident(pat[1]) for pat, _ in f["params"]], types=[lean_type(ty, generics) for _, ty in f["params"]], ret=ret, term=term, pre="".join(pre))
-    if uses_self and f["name"] in FUEL:
+    if uses_self and (f["name"] in FUEL or (attr and any(t == "Json" for t in [lean_type(ty, generics) for _, ty in f["params"]]))):
         term = re.sub(r"\bGen\.%s\b" % re.escape(lean_name), "(Gen.%s.go fuel)" % lean_name, term)
         names = [ident(pat[1]) for pat, _ in f["params"]]
         tys = [lean_type(ty, generics) for _, ty in f["params"]]
@@ -1230,7 +1234,7 @@ def translate_fn(f, lean_name, fn_names, extra_local=None, file_fns=None, aux_do
         text += "def %s %s : %s :=\n %s.go (%s + 1) %s\n\n" % (lean_name, " ".join(binders + params), ret, lean_name, depth, " ".join(names))
         return text
     if uses_self and f["name"] not in TERMINATION and attr:
-        raise UnsupportedSyntax("recursive auxiliary function `%s`" % f["name"])
+        raise UnsupportedSyntax("recursive auxiliary function `%s` without a JSON argument to bound it" % f["name"])
     text += "%sdef %s %s : %s :=\n %s\n" % (attr, lean_name, " ".join(binders + params), ret, term)
     if uses_self and f["name"] in TERMINATION:
         text += TERMINATION[f["name"]] + "\n"
